@@ -39,6 +39,7 @@ def run(res, f, tier):
     # helper -> terminals whose action passes the token text to it
     helper_terms = {}
     action_helper = {}
+    spec_path = {"parse::helpers::" + n_: sp_[0] for n_, sp_ in g.get("spec_helpers", {}).items()}
     for p in g["prods"]:
         if p["term"]:
             for _, t in p["term"]:
@@ -87,6 +88,33 @@ def run(res, f, tier):
                 wrapper_callers.setdefault(q, set()).add(h)
                 if (set(helper_terms[q]), set(wrapper_callers[q])) != before:
                     work.append(q)
+    _reach = {}
+
+    def reach_of(q):
+        if q not in _reach:
+            _reach[q] = set(evalsum.reachable_local(f, [q]))
+        return _reach[q]
+
+    callers_of = {}
+    for d, b2 in f.bodies.items():
+        for blk in b2["blocks"]:
+            t = blk["term"]
+            if t["k"] == "call":
+                c = callee_of(t)
+                if c:
+                    callers_of.setdefault(c.get("resolved") or c["path"], set()).add(d)
+
+    def balanced(text, open_at):
+        depth = 0
+        for j in range(open_at, len(text)):
+            if text[j] == "(":
+                depth += 1
+            elif text[j] == ")":
+                depth -= 1
+                if depth == 0:
+                    return text[open_at + 1:j]
+        return text[open_at + 1:]
+
     obligations = discharged = 0
     nsites = 0
     counts = {}
@@ -113,53 +141,71 @@ def run(res, f, tier):
             if s in slices or (s in pending_sub and slices):
                 continue   # handled below as a slicing obligation
             ob(False, hazards.key("C06", p, s), "%s in %s at %s: %s" % (s["detail"], p, s["span"], s["reason"]), {"site": s})
+        # the slicing is judged in the context of every helper the grammar actions hand a token text to and from which
+        # this function is reached: the helper is summarised with the called functions inlined (and with its constants,
+        # when the actions call it with the token text and constants — `Literal::Int.parse(s)` is one helper per
+        # constant), so the offsets are those applied to the token text whatever the factoring
         if slices:
-            # offsets from the helper's own summary
-            outs, it = evalsum.summarize_fn(f, p, arg_names=["value"], opaque=lambda q: q.startswith("parse::unescape"))
-            text = " ".join(r for _, r, _, _ in outs)
-            m = re.search(r"str::index\(value, RangeFrom\((\d+)\)\)", text)
-            m2 = re.search(r"str::index\(value, Range\((\d+), Sub\(str::len\(value\), (\d+)\)\)\)", text)
-            if m:
-                front, back = int(m.group(1)), 0
-            elif m2:
-                front, back = int(m2.group(1)), int(m2.group(2))
-            else:
-                ob(False, "C06|slice|%s" % p, "string slicing in %s whose bounds are not constant offsets of the token text" % p, {"summary": text[:300]})
-                continue
-            terms = helper_terms.get(p, set())
-            if not terms or None in terms:
+            ctx = [h_ for h_ in sorted(helper_terms) if h_ in spec_path or h_ in f.bodies
+                   if p in reach_of(spec_path.get(h_, h_))]
+            if not ctx:
                 ob(False, "C06|slice|%s" % p, "slicing helper %s is not fed by a token of the grammar" % p)
                 continue
-            for T in sorted(terms):
-                if T not in tok:
-                    ob(False, "C06|slice|%s|%s" % (p, T), "slicing helper %s receives %s, which is not a token" % (p, T))
+            for h in ctx:
+                _, outs = grammar.helper_summary(f, g, h.split("::")[-1], opaque=lambda q: q.startswith("parse::unescape") and q != p and p not in reach_of(q))
+                text = " ".join(r for _, r, _, _ in outs) + " " + " ".join(a_ for c_, _, _, _ in outs for a_, _ in c_)
+                offs = set()
+                bad_slice = None
+                for m in re.finditer(r"str::index\(", text):
+                    inner = balanced(text, m.end() - 1)
+                    m1 = re.fullmatch(r"value, RangeFrom\((\d+)\)", inner)
+                    m2 = re.fullmatch(r"value, Range\((\d+), Sub\(str::len\(value\), (\d+)\)\)", inner)
+                    if m1:
+                        offs.add((int(m1.group(1)), 0))
+                    elif m2:
+                        offs.add((int(m2.group(1)), int(m2.group(2))))
+                    else:
+                        bad_slice = inner
+                if bad_slice is not None or not offs:
+                    ob(False, "C06|slice|%s" % (h if h != p else p), "string slicing in %s (reached from %s) whose bounds are not constant offsets of the token text" % (p, h),
+                       {"summary": text[:300], "slice": bad_slice})
                     continue
-                ast = lx.asts[tok[T]]
-                pre, _ = lexre.literal_prefix(ast)
-                suf, _ = lexre.literal_suffix(ast)
-                # every lexeme is long enough and its first `front` / last `back` characters are single-byte (ASCII),
-                # so the byte offsets are in range and on character boundaries
-                anyc = ("lit", [(0, 0xD7FF), (0xE000, 0x10FFFF)])
-                ascii_ = ("lit", [(0, 127)])
-                shape = ("cat", [ascii_] * front + [("star", anyc)] + [ascii_] * back)
-                inc, w = lexre.included(ast, shape)
-                ok = lexre.min_len(ast) >= front + back and inc
-                ob(ok, "C06|slice|%s|%s" % (p, T),
-                   "slice [%d..len-%d] of a %s lexeme in %s can be out of bounds or off a character boundary (token regex: min length %d, fixed prefix %r, fixed suffix %r)"
-                   % (front, back, T, p, lexre.min_len(ast), "".join(map(chr, pre)), "".join(map(chr, suf))))
-                slicing.append({"helper": p, "token": T, "strip_front": front, "strip_back": back, "regex": g["table"][tok[T]][0][:50],
-                                "min_len": lexre.min_len(ast), "prefix": "".join(map(chr, pre))})
-            # who may call: only the actions of those terminals
-            callers = set()
-            for d, b2 in f.bodies.items():
-                for blk in b2["blocks"]:
-                    t = blk["term"]
-                    if t["k"] == "call":
-                        c = callee_of(t)
-                        if c and (c.get("resolved") or c["path"]) == p:
-                            callers.add(d)
-            allowed = set("parse::reval::__action%d" % a for a in action_helper.get(p, ())) | wrapper_callers.get(p, set())
-            ob(callers <= allowed, "C06|slice-callers|%s" % p, "slicing helper %s is also called from %s, where the argument is not a token of the discharging regex" % (p, sorted(callers - allowed)))
+                terms = helper_terms.get(h, set())
+                if not terms or None in terms:
+                    ob(False, "C06|slice|%s" % h, "slicing helper %s is not fed by a token of the grammar" % h)
+                    continue
+                for front, back in sorted(offs):
+                    for T in sorted(terms):
+                        if T not in tok:
+                            ob(False, "C06|slice|%s|%s" % (h, T), "slicing helper %s receives %s, which is not a token" % (h, T))
+                            continue
+                        ast = lx.asts[tok[T]]
+                        pre, _ = lexre.literal_prefix(ast)
+                        suf, _ = lexre.literal_suffix(ast)
+                        # every lexeme is long enough and its first `front` / last `back` characters are single-byte (ASCII),
+                        # so the byte offsets are in range and on character boundaries
+                        anyc = ("lit", [(0, 0xD7FF), (0xE000, 0x10FFFF)])
+                        ascii_ = ("lit", [(0, 127)])
+                        shape = ("cat", [ascii_] * front + [("star", anyc)] + [ascii_] * back)
+                        inc, w = lexre.included(ast, shape)
+                        ok = lexre.min_len(ast) >= front + back and inc
+                        ob(ok, "C06|slice|%s|%s" % (h, T),
+                           "slice [%d..len-%d] of a %s lexeme in %s can be out of bounds or off a character boundary (token regex: min length %d, fixed prefix %r, fixed suffix %r)"
+                           % (front, back, T, h, lexre.min_len(ast), "".join(map(chr, pre)), "".join(map(chr, suf))))
+                        if not any(x["helper"] == h and x["token"] == T and x["strip_front"] == front and x["strip_back"] == back for x in slicing):
+                            slicing.append({"helper": h, "token": T, "strip_front": front, "strip_back": back, "regex": g["table"][tok[T]][0][:50],
+                                            "min_len": lexre.min_len(ast), "prefix": "".join(map(chr, pre))})
+            # who may call: the functions between those helpers and the slicing are entered only through the helpers, and
+            # the helpers only from the actions of those terminals
+            region = {p}
+            for h in ctx:
+                real = spec_path.get(h, h)
+                region.update(q for q in reach_of(real) if p in reach_of(q))
+            allowed = region | set("parse::reval::__action%d" % a for h in ctx for a in action_helper.get(h, ()))
+            for q in sorted(region):
+                callers = callers_of.get(q, set())
+                ob(callers <= allowed, "C06|slice-callers|%s" % q, "%s (which slices the token text, or hands it to %s for slicing) is also called from %s, where the argument is not a token of the discharging regex"
+                   % (q, p, sorted(callers - allowed)))
     res.floor("slicing obligations", len(slicing), 4)
     import control
     controls = control.hazard_controls()
